@@ -31,9 +31,12 @@ def load_props():
 
 def run_verus(path, cwd, rlimit, extra=()):
     cmd = ["verus", os.path.basename(path), "--output-json", "--time", "--triggers-mode", "silent",
-           "--multiple-errors", "4", "--rlimit", str(rlimit)] + list(extra)
+           "--multiple-errors", "4", "--rlimit", str(rlimit),
+           # after a failed query Verus re-runs it with recommends-checking to improve the diagnostics; that re-run is not
+           # under the resource limit and was seen to run for > 30 min on a broken build_ot: switched off
+           "--no-auto-recommends-check"] + list(extra)
     t0 = time.time()
-    p = subprocess.run(cmd, cwd=cwd, stdout=subprocess.PIPE, stderr=subprocess.PIPE, text=True, timeout=3600)
+    p = subprocess.run(cmd, cwd=cwd, stdout=subprocess.PIPE, stderr=subprocess.PIPE, text=True, timeout=1500)
     wall = time.time() - t0
     js = None
     try:
